@@ -1,20 +1,18 @@
 /* C03 / C07: contrib/lax_der_parsing.c (ecdsa_signature_parse_der_lax) - memory safety for every input of
  * every length, and the promise of contrib/lax_der_parsing.h: "After the call, sig will always be initialized.
  * If parsing failed or the encoded numbers are out of range, signature validation with it is guaranteed to fail".
- * The four caller-controlled loops carry loop contracts (hooks/C03_lax_der_loops.diff); the input buffer is a
- * heap object of exactly inputlen bytes, so any read outside it is a bounds violation. */
-/* The two copies of a caller-controlled number of bytes go through the memcpy contract of DESIGN 2.4 (its
- * requires clause = the bounds obligations); 32-byte copies stay exact. */
-#define EL_MEMCPY
-#define EL_MEMCPY_EXACT32
-#include "assumed_elements.h"
+ * The six loops carry loop contracts supplied from the unit table (engine/units/C03.py, no /repo edit); the
+ * input buffer is a heap object of exactly inputlen bytes, so any read outside it is a bounds violation. */
+#include "assumed.h"
 #include "spec_der.h"
 #include "src/secp256k1.c"
 #include "contrib/lax_der_parsing.c"
 #include "post.h"
 
+/* every length of the property's domain ("all lengths 0..~300 (DER)"); the loops are closed by loop contracts, so
+ * this is not an unwinding bound - larger values only cost solver time (100000: no answer within 15 min) */
 #ifndef MAXLEN
-#define MAXLEN 100000
+#define MAXLEN 300
 #endif
 
 void h_lax_der(void) {
@@ -24,7 +22,6 @@ void h_lax_der(void) {
     __CPROVER_assume(len <= MAXLEN && k < 64);
     INPUT_BUF(b, buf, len, 80);
     verif_ctx_init(&ctx);
-    GHOST_ONLY(g_mc_idx = k % 32;)
     ret = ecdsa_signature_parse_der_lax(&ctx, &sig, buf, len);
     WITNESS_BUF(b, buf, len, 80);
     __CPROVER_assert(ret == 0 || ret == 1, "C03 lax_der: returns 0 or 1");
@@ -32,26 +29,7 @@ void h_lax_der(void) {
     secp256k1_ecdsa_signature_load(&ctx, &r, &s, &sig);
     __CPROVER_assert(scalar_ok(&r) && scalar_ok(&s), "C03 lax_der: the signature object is always initialized with reduced scalars");
     if (!ret) __CPROVER_assert(sig.data[k] == 0, "C03 lax_der: a rejected input leaves the all-zero signature object (never verifies)");
-    if (ret && len > 300) REACH("lax parser accepts a long input");
+    if (ret && len > 250) REACH("lax parser accepts a long input");
     if (ret && (r.d[0] | r.d[1] | r.d[2] | r.d[3]) != 0 && (s.d[0] | s.d[1] | s.d[2] | s.d[3]) != 0) REACH("lax parser yields non-zero r and s");
     if (!ret && len > 10) REACH("lax parser rejects");
-}
-
-/* bounded stand-in (no loop contracts needed): every input of length <= 64 */
-void h_lax_der_b(void) {
-    secp256k1_context ctx;
-    INPUT(size_t, len); INPUT(secp256k1_ecdsa_signature, sig); INPUT(size_t, k);
-    unsigned char *buf; int ret; secp256k1_scalar r, s;
-    __CPROVER_assume(len <= 64 && k < 64);
-    INPUT_BUF(b, buf, len, 64);
-    verif_ctx_init(&ctx);
-    ret = ecdsa_signature_parse_der_lax(&ctx, &sig, buf, len);
-    WITNESS_BUF(b, buf, len, 64);
-    __CPROVER_assert(ret == 0 || ret == 1, "C03 lax_der(bounded): returns 0 or 1");
-    __CPROVER_assert(g_illegal == 0 && g_error == 0, "C03 lax_der(bounded): no callback, whatever the bytes");
-    secp256k1_ecdsa_signature_load(&ctx, &r, &s, &sig);
-    __CPROVER_assert(scalar_ok(&r) && scalar_ok(&s), "C03 lax_der(bounded): the signature object is always initialized with reduced scalars");
-    if (!ret) __CPROVER_assert(sig.data[k] == 0, "C03 lax_der(bounded): a rejected input leaves the all-zero signature object");
-    if (ret) REACH("lax parser accepts (bounded)");
-    if (!ret && len > 10) REACH("lax parser rejects (bounded)");
 }
